@@ -358,6 +358,126 @@ Definition lle_wrap (rho : vec -> option Q) (eq : vec -> vec * vec) (extra : nat
 Definition vle_wrap (eq : vec -> vec * vec) (feed : vec) : vec * vec :=
   let '(rowg, rowl) := eq feed in (rowg, rowl).
 
+(* State kept between calls: the multi_stream argument is a caller-owned MultiStream that is reused.  After
+   ms.copy_like(feed) (or feed.copy() and the phase conversion of .lle / .vle) the working stream has one row per phase,
+   the feed in the row of its phase (index k) and EVERY other row empty, whatever the rows ms0 held before.
+   The equilibrium oracle [eqr] sees those rows. *)
+Definition ms_after_copy (ms0 : list vec) (k : nat) (feed : vec) : list vec :=
+  upd (map (fun _ : vec => vzero (length feed)) ms0) k feed.
+
+Definition lle_ms (rho : vec -> option Q) (eqr : list vec -> vec * vec) (extra : nat) (ms0 : list vec) (k : nat)
+           (feed top0 bot0 : vec) (topchem : bool) (eff : Q) : eqres :=
+  lle_wrap rho (fun f => eqr (ms_after_copy ms0 k f)) extra feed top0 bot0 topchem eff.
+
+Definition vle_ms (eqr : list vec -> vec * vec) (ms0 : list vec) (k : nat) (feed : vec) : vec * vec :=
+  vle_wrap (fun f => eqr (ms_after_copy ms0 k f)) feed.
+
+(* table-driven equilibrium stubs of the harness: fixed rows, or a split of whatever material the stream holds *)
+Definition eq_abs (a b : vec) (rows : list vec) : vec * vec := (a, b).
+Definition eq_rel (n : nat) (s : vec) (rows : list vec) : vec * vec :=
+  let t := vsum n rows in (vmul s t, vsub t (vmul s t)).
+
+(* ---------- phase_split on a MultiStream with a history ----------
+   A MultiStream caches one Stream view per phase (MultiStream._streams) that points at a row of the indexer.  The
+   phases setter replaces the indexer (to_material_indexer) and re-links the cached views.  Phases are coded
+   0 = 'L', 1 = 'g', 2 = 'l', 3 = 's' (their sorted order).  [ms_gen] numbers the indexer objects, [ms_views] says
+   which indexer generation each cached view points at, [ms_old] keeps the rows of replaced indexers. *)
+Record mstate := mkMS {
+  ms_gen : nat; ms_present : list bool; ms_rows : list vec;
+  ms_views : list (option nat); ms_old : list (nat * list vec) }.
+
+Inductive mop :=
+| MView (p : nat)                 (* feed[p]: create / fetch the cached view *)
+| MSet (p : nat) (v : vec)        (* feed.imol[p] = v *)
+| MPhases (np : list bool)        (* feed.phases = ... (two or more phases) *)
+| MSplit.                         (* an earlier phase_split(feed, fresh outlets) *)
+
+Definition nthb (l : list bool) (p : nat) : bool := nth p l false.
+Definition nthv (l : list vec) (p : nat) : vec := nth p l [].
+Definition swap_case (p : nat) : option nat :=
+  match p with 0%nat => Some 2%nat | 2%nat => Some 0%nat | _ => None end.
+
+Fixpoint old_rows (old : list (nat * list vec)) (g : nat) : list vec :=
+  match old with
+  | [] => []
+  | (g', r) :: t => if Nat.eqb g g' then r else old_rows t g
+  end.
+
+(* the flows a cached (or freshly made) view of phase p shows *)
+Definition view_read (s : mstate) (p : nat) : vec :=
+  match nth p (ms_views s) None with
+  | Some g => if Nat.eqb g (ms_gen s) then nthv (ms_rows s) p else nthv (old_rows (ms_old s) g) p
+  | None => nthv (ms_rows s) p
+  end.
+
+Definition touch_view (gen : nat) (v : option nat) : option nat :=
+  match v with None => Some gen | Some g => Some g end.
+
+(* MaterialIndexer.to_material_indexer: non-empty rows of dropped phases go to the phase of the other case *)
+Fixpoint regroup (n : nat) (np : list bool) (ps : list nat) (present : list bool) (rows acc : list vec) : res (list vec) :=
+  match ps with
+  | [] => Ok acc
+  | p :: ps' =>
+    if nthb present p && existsb (fun x => negb (qzerob x)) (nthv rows p) then
+      let target := if nthb np p then Some p else swap_case p in
+      match target with
+      | Some t => if nthb np t then regroup n np ps' present rows (upd acc t (vadd (nthv acc t) (nthv rows p)))
+                  else Err EUndefPhase
+      | None => Err EUndefPhase
+      end
+    else regroup n np ps' present rows acc
+  end.
+
+Definition all_phases : list nat := [0; 1; 2; 3]%nat.
+Definition blist_eqb (a b : list bool) : bool := list_eqb Bool.eqb a b.
+
+Definition mstep (n : nat) (s : mstate) (o : mop) : res mstate :=
+  match o with
+  | MView p =>
+    if nthb (ms_present s) p
+    then Ok (mkMS (ms_gen s) (ms_present s) (ms_rows s)
+                  (upd (ms_views s) p (touch_view (ms_gen s) (nth p (ms_views s) None))) (ms_old s))
+    else Err EUndefPhase
+  | MSet p v =>
+    if nthb (ms_present s) p
+    then Ok (mkMS (ms_gen s) (ms_present s) (upd (ms_rows s) p v) (ms_views s) (ms_old s))
+    else Err EUndefPhase
+  | MPhases np =>
+    if blist_eqb np (ms_present s) then Ok s else
+    do rows' <- regroup n np all_phases (ms_present s) (ms_rows s) (repeat (vzero n) 4);
+    let gen' := S (ms_gen s) in
+    Ok (mkMS gen' np rows'
+             (map2 (fun (v : option nat) (keep : bool) =>
+                      if keep then match v with Some _ => Some gen' | None => None end else None)
+                   (ms_views s) np)
+             ((ms_gen s, ms_rows s) :: ms_old s))
+  | MSplit =>
+    Ok (mkMS (ms_gen s) (ms_present s) (ms_rows s)
+             (map2 (fun (v : option nat) (pr : bool) => if pr then touch_view (ms_gen s) v else v)
+                   (ms_views s) (ms_present s)) (ms_old s))
+  end.
+
+Fixpoint mrun (n : nat) (s : mstate) (ops : list mop) : res mstate :=
+  match ops with
+  | [] => Ok s
+  | o :: t => do s' <- mstep n s o; mrun n s' t
+  end.
+
+Definition present_phases (s : mstate) : list nat := filter (nthb (ms_present s)) all_phases.
+Definition minit (present : list bool) (rows : list vec) : mstate :=
+  mkMS 0 present rows [None; None; None; None] [].
+
+(* phase_split(feed, outlets) after the history: for i, j in zip(feed, outlets): j.copy_like(i), where iterating the
+   feed yields the per-phase views *)
+Definition phase_split_hist (n : nat) (present : list bool) (rows : list vec) (ops : list mop) (outs0 : list vec)
+  : res (list vec * list vec) :=
+  do s <- mrun n (minit present rows) ops;
+  do outs <- phase_split (map (view_read s) (present_phases s)) outs0;
+  Ok (outs, map (nthv (ms_rows s)) (present_phases s)).
+
+Definition pairvl_approxb (a b : res (list vec * list vec)) : bool :=
+  res_eqb (fun x y => list_eqb vapproxb (fst x) (fst y) && list_eqb vapproxb (snd x) (snd y)) a b.
+
 (* stub property package: rho = (sum n_i MW_i) / (sum n_i MW_i / rho_i) *)
 Definition rho_stub (mws vms : vec) (row : vec) : option Q :=
   if qzerob (qsum row) then None else Some (vdot row mws / vdot row vms).
